@@ -371,3 +371,92 @@ repair_control = FunctionContract(
             ("missing.pop(missing.index(ref_idx))", "missing.pop(0)")],
 )
 CONTRACTS.append(repair_control)
+
+
+# ------------------------------------------------------------------ RepairGraph: the processor around make_reference and repair_graph
+MolR = TKey('MolR')
+
+
+def setup_rg_run(cx):
+    from pyvc.builtins import list_append
+    mols = cx.val('MOLS_IN', TSeq(MolR))
+    cx.spec_env['MOLS_IN'] = mols
+    repaired = cx.uf('repaired', [MolR], MolR)              # run_molecule(molecule): copy, make_reference, repair_graph
+    unknown = cx.uf('unknown_residue', [MolR], TBool)       # ... raises KeyError (a residue the force field has no block for)
+    WARNED = cx.heap('WARNED', cx.box('WARNED', TSeq(TStr)))
+    cx.spec_env['LOGGER'] = Obj('LOGGER', warning=Builtin(lambda e, *a, type=None, **k: list_append(e, WARNED, type), 'LOGGER.warning'))
+    cx.spec_env['str'] = Builtin(lambda e, x: 'message', 'str')
+
+    def run_molecule(e, m):
+        me = to_z3(m, MolR)
+        e.maybe_raise(z3.Not(unknown(me)), 'KeyError')
+        return SV(MolR, repaired(me))
+    self = Obj('RepairGraph', delete_unknown=cx.val('delete_unknown', TBool), run_molecule=Builtin(run_molecule, 'self.run_molecule'))
+    system = Obj('System', molecules=Box(TSeq(MolR), mols.e))
+    return dict(self=self, system=system)
+
+
+RG_INV = [
+    "len(g_src) == len(mols) and len(WARNED) == {I} - len(mols)",
+    "forall(lambda q: implies(0 <= q and q < len(g_src), 0 <= g_src[q] and g_src[q] < {I} and not unknown_residue(MOLS_IN[g_src[q]]) and "
+    "   mols[q] == repaired(MOLS_IN[g_src[q]])))",
+    "forall(lambda p, q: implies(0 <= p and p < q and q < len(g_src), g_src[p] < g_src[q]))",
+    "forall(lambda i: implies(0 <= i and i < {I} and not unknown_residue(MOLS_IN[i]), i in g_pos and 0 <= g_pos[i] and g_pos[i] < len(g_src) and "
+    "   g_src[g_pos[i]] == i))",
+    "forall(lambda i: implies(0 <= i and i < {I} and unknown_residue(MOLS_IN[i]), delete_unknown))",
+    "forall(lambda q: implies(0 <= q and q < len(WARNED), WARNED[q] == 'unknown-residue'))",
+]
+rg_run_system = FunctionContract(
+    F, 'RepairGraph.run_system', 'C04', setup=setup_rg_run, spec_env=dict(MolR=MolR),
+    locals=dict(mols=TSeq(MolR), g_src=TSeq(TInt), g_pos=TMap(TInt, TInt)), ghost_at={'entry': "g_src = []\ng_pos = {}"},
+    requires=["len(old(WARNED)) == 0"],
+    ensures=[
+        # the system afterwards holds, in order, the repaired version of every molecule whose residues are all known; a molecule with
+        # an unknown residue is dropped with one unknown-residue warning when delete_unknown is set (else the KeyError goes on)
+        "len(system.molecules) == len(g_src) and forall(lambda q: implies(0 <= q and q < len(g_src), system.molecules[q] == repaired(MOLS_IN[g_src[q]])))",
+        "len(WARNED) == len(MOLS_IN) - len(system.molecules)",
+    ] + [x.format(I='len(MOLS_IN)').replace('delete_unknown', 'self.delete_unknown') for x in RG_INV[2:]],
+    raises={'KeyError': ["not self.delete_unknown and exists(lambda i: 0 <= i and i < len(MOLS_IN) and unknown_residue(MOLS_IN[i]))",
+                         "len(system.molecules) == len(MOLS_IN)"]},
+    modifies=['system.molecules', 'WARNED'],
+    loops={'L1': LoopSpec(inv=[x.format(I='_i').replace('delete_unknown', 'self.delete_unknown') for x in RG_INV] + ["len(system.molecules) == len(MOLS_IN)"],
+                          modifies=['mols', 'WARNED', 'g_src', 'g_pos'], locals=dict(g_n0=TInt), ghost_pre="g_n0 = len(mols)",
+                          ghost_end="if len(mols) > g_n0:\n    g_src.append(_i)\n    g_pos[_i] = len(g_src) - 1")},
+    canary=[("if not self.delete_unknown:", "if self.delete_unknown:"), ("mols.append(new_molecule)", "mols.append(molecule)")],
+)
+CONTRACTS.append(rg_run_system)
+
+
+def setup_rg_mol(cx):
+    from pyvc.builtins import list_append
+    molecule, copy_, ref = Obj('Molecule'), Obj('copy'), Obj('reference_graph')
+    molecule.attrs['copy'] = Builtin(lambda e: copy_, 'molecule.copy')
+    inc = cx.val('include_graph', TBool)
+    CALLS = cx.heap('CALLS', cx.box('CALLS', TSeq(TStr)))
+    cx.spec_env['COPY'] = copy_
+
+    def make_reference_(e, m):
+        e.oblige(m is copy_, 'make_reference:of-the-copy')
+        list_append(e, CALLS, 'make_reference')
+        return ref
+
+    def repair_graph_(e, m, r, include_graph=None):
+        e.oblige(m is copy_ and r is ref and include_graph is inc, 'repair_graph:the-copy-against-its-reference')
+        list_append(e, CALLS, 'repair_graph')
+    cx.spec_env['make_reference'] = Builtin(make_reference_, 'make_reference')
+    cx.spec_env['repair_graph'] = Builtin(repair_graph_, 'repair_graph')
+    return dict(self=Obj('RepairGraph', include_graph=inc), molecule=molecule)
+
+
+rg_run_molecule = FunctionContract(
+    F, 'RepairGraph.run_molecule', 'C04', setup=setup_rg_mol,
+    requires=["len(old(CALLS)) == 0"],
+    ensures=[
+        # the input molecule is left alone: a copy is matched against its reference (make_reference) and repaired against exactly
+        # that reference, with the processor's include_graph switch; the copy is returned
+        "result is COPY and len(CALLS) == 2 and CALLS[0] == 'make_reference' and CALLS[1] == 'repair_graph'",
+    ],
+    modifies=['CALLS'],
+    canary=[("molecule = molecule.copy()", "pass"), ("include_graph=self.include_graph", "include_graph=True")],
+)
+CONTRACTS.append(rg_run_molecule)
